@@ -14,8 +14,10 @@ from checks import scenarios as S
 PROP = "C08"
 LEVEL = "proof"
 THEOREMS = {"Proofs.Props.C08": ["MsPack.Cab.C08_not_reusable_is_fresh", "MsPack.Cab.C08_backward_seek_is_fresh"],
-            "Proofs.Props.C08Stored": ["MsPack.Cab.C08_stored_any_order"]}
-ASSUMPTIONS = ["forward re-use of a live decoder is proved for stored folders (C08_stored_any_order: any call sequence, any order, repeated members); for MSZIP/LZX/Quantum it needs the decoders' chunking law, not yet a theorem: covered by the history oracle and model agreement",
+            "Proofs.Props.C08Stored": ["MsPack.Cab.C08_stored_any_order"],
+            "Proofs.Props.C08Mszip": ["MsPack.Zip.C08_mszip_chunk_law", "MsPack.Zip.C08_mszip_chunk_law_fuel", "MsPack.Zip.C08_mszip_chunk_split", "MsPack.Zip.C08_mszip_fuel_irrelevant",
+                                      "MsPack.Zip.C08_mszip_calls", "MsPack.Zip.C08_mszip_any_order_model", "MsPack.Cab.C08_mszip_cab_chunk", "MsPack.Cab.C08_mszip_cab_chunk_fuel"]}
+ASSUMPTIONS = ["forward re-use of a live decoder is proved for stored folders (C08_stored_any_order: any call sequence, any order, repeated members); for MSZIP the decoder's chunking law is a theorem (C08Mszip: asking for a then b is asking for a+b - same bytes, same final state, both directions; any split of N into call sizes gives the same data; a decoder-level model of cabd_extract's re-use rule returns each member's slice for any request list in any order) and is lifted to the single decoder call cabd makes (C08_mszip_cab_chunk); the walk through obtainDState/runPhases for MSZIP folders and the chunking laws of LZX/Quantum are not theorems: covered by the history oracle and model agreement",
                "fault-free host"]
 RULE = ("cab.history / chm.history: well-formed generated archives (cab: 1-3 folders, split sets; chm: both sections), a history of 6-14 extract calls drawn with repetition over "
         "all members (two archives interleaved on one decompressor in a third of the cases; one block of one folder damaged in a quarter), each call compared with the same member "
